@@ -256,11 +256,21 @@ ExplicitGlobalWins(def, obs, top) ==
      LET g == cs[i].args[j] IN
      (g.global /\ \E k \in i..Len(leds) : \E o \in SeqToSet(leds[k]) : o.k = "occ" /\ o.id = g.id)
         => EHas(obs.chain[i], g.id) /\ EGet(obs.chain[i], g.id).src = "cli"
-P09(def, obs, top) ==
-  (obs.outcome = "Ok" /\ ~def.s.ignore_errors /\ ~top.err) =>
-     /\ ObsSubChain(obs) = SubChain(top)
-     /\ GlobalsAgree(def, obs)
-     /\ ExplicitGlobalWins(def, obs, top)
+\* depth of the level at which the grammar rejects the line (1 = the top-level command)
+RECURSIVE FailDepth(_, _)
+FailDepth(c, lv) ==
+  IF lv.sub.set /\ ~lv.sub.ext /\ lv.sub.lv.err /\ FindSubcommand(c, lv.sub.name) # 0
+  THEN 1 + FailDepth(Build(c.subs[SubView(c)[FindSubcommand(c, lv.sub.name)].i], c.childInh), lv.sub.lv)
+  ELSE 1
+P09(def, obs, top, mobs) ==
+  /\ (obs.outcome = "Ok" /\ ~def.s.ignore_errors /\ ~top.err) =>
+        /\ ObsSubChain(obs) = SubChain(top)
+        /\ GlobalsAgree(def, obs)
+        /\ ExplicitGlobalWins(def, obs, top)
+        \* each subcommand level's arguments are what that level's definition makes of that level's tokens
+        /\ (mobs.outcome = "Ok" /\ Len(obs.chain) = Len(mobs.chain) => \A i \in 2..Len(obs.chain) : CliPart(obs)[i] = CliPart(mobs)[i])
+  \* ... and a line that a subcommand level's own definition rejects is not accepted on that level's behalf
+  /\ (obs.outcome = "Ok" /\ ~def.s.ignore_errors /\ top.err /\ ~top.panic) => FailDepth(Build(def, NoInherit), top) < 2
 
 \* ---- C10: rejections justified and classified ---------------------------------------------------
 KindContract(obs) ==
